@@ -15,4 +15,4 @@ print(' '.join(c.get('caught_by') or [c.get('check') or m['property']]))")
   elif echo "$last" | grep -q "^VIOLATION"; then echo "caught  $n ($checks)"; else echo "MISSED  $n ($checks)"; fi
 }
 export -f one
-ls -d seeded/*${F}*/ | sed 's#/$##' | xargs -P $J -I{} bash -c 'one {}'
+ls -d seeded/*${F}*/ | sed 's#/$##' | while read d; do grep -q '"retired"' $d/meta.json || echo $d; done | xargs -P $J -I{} bash -c 'one {}'
